@@ -83,6 +83,29 @@ pub fn de<T: serde::de::DeserializeOwned>(b: &[u8]) -> Result<T, String> {
 pub fn arg_de<T: serde::de::DeserializeOwned>(a: &[&str], i: usize) -> Result<T, String> {
     de::<T>(&arg_bytes(a, i)?)
 }
+
+// Values generated in this process (KeyPair::new) are kept as the library produced them, keyed by their encoding, so that
+// later ops use the very value and not a decoded copy: a generated value which the library's own decoder would reject
+// (a defect C19 reports) then still reaches the operations of C07 / C08 instead of stopping the run with a decode error.
+thread_local! {
+    static GENERATED: std::cell::RefCell<std::collections::HashMap<Vec<u8>, std::rc::Rc<dyn std::any::Any>>> =
+        std::cell::RefCell::new(std::collections::HashMap::new());
+}
+pub fn remember<T: serde::Serialize + 'static>(t: T) -> std::rc::Rc<T> {
+    let bytes = bincode::serialize(&t).expect("serialize");
+    let rc = std::rc::Rc::new(t);
+    GENERATED.with(|g| g.borrow_mut().insert(bytes, rc.clone() as std::rc::Rc<dyn std::any::Any>));
+    rc
+}
+pub fn arg_key<T: serde::de::DeserializeOwned + 'static>(a: &[&str], i: usize) -> Result<std::rc::Rc<T>, String> {
+    let bytes = arg_bytes(a, i)?;
+    if let Some(rc) = GENERATED.with(|g| g.borrow().get(&bytes).cloned()) {
+        if let Ok(t) = rc.downcast::<T>() {
+            return Ok(t);
+        }
+    }
+    Ok(std::rc::Rc::new(de::<T>(&bytes)?))
+}
 pub fn b(x: bool) -> String {
     (if x { "1" } else { "0" }).to_string()
 }
